@@ -74,7 +74,7 @@ META = {
   note="Every retry sleeps >= 1 s in derr's real back-off, so cases run in concurrent batches of 12 and counts are modest. Only faults an in-process fake stream can model (no half-open connections or deadlines).",
   technique="rapid random generation of fault plans (fault injection), differential against the sequential reference"),
  "C17": dict(
-  text="Structure-aware random generation of tier1 and tier2 requests with every field of every module free, plus valid generated graphs with one field broken, run through the server's sequence (ValidateTier1/2Request, exec.NewOutputModuleGraph incl. hashing and staging, BuildRequestDetails, BuildTier1RequestPlan): every call must return without panic, within 10 s, allocating < 256 MiB.",
+  text="Structure-aware random generation of tier1 and tier2 requests with every field of every module free, plus valid generated graphs with one field broken, run through the server's sequence (ValidateTier1/2Request, exec.NewOutputModuleGraph incl. hashing and staging, BuildRequestDetails, BuildTier1RequestPlan): every call must return without panic, within 10 s, allocating < 256 MiB, and a rejection caused by the request must reach the client as invalid_argument (the error is wrapped as Tier1Service.blocks wraps it and mapped with the service's own toConnectError).",
   design_ref="DESIGN.md section 3, C17",
   note="Requests are encoded to the wire and decoded again, so only shapes a client can actually send are judged; the tier2 stage index is kept in range (not in the property's list).",
   technique="rapid structure-aware random generation with crash/hang/allocation oracle; thorough tier adds native coverage-guided fuzzing of the wire bytes (FuzzC17Request)"),
